@@ -1124,7 +1124,6 @@ func (l *Lifter) srBlock(stmts []ast.Stmt, counts map[string]*countVar, limited 
 	return items
 }
 
-
 // dispatchAsLoop rewrites, at the top level of a decoder,
 //
 //	switch TAG { case k: BODY_k … }
@@ -1171,7 +1170,6 @@ func dispatchAsLoop(stmts []ast.Stmt, i int, isTag func(ast.Expr) bool) ([]ast.S
 
 func isReturnStmt(s ast.Stmt) bool { _, ok := s.(*ast.ReturnStmt); return ok }
 
-
 // keyShadows: the operand of a key-only range mentions a variable spelled
 // like the key, which the key then shadows inside the body.
 func keyShadows(x ast.Expr, key *ast.Ident) bool {
@@ -1184,7 +1182,6 @@ func keyShadows(x ast.Expr, key *ast.Ident) bool {
 	})
 	return shadows
 }
-
 
 // prefixReject matches `if <prefix> REL <constant> { return <error> }`: the
 // decoder refuses a record for the value of its length prefix alone. The
@@ -1235,7 +1232,6 @@ func (l *Lifter) prefixReject(s ast.Stmt, prefix string) bool {
 	l.fail("prefixreject", "", s.Pos(), "the decoder returns %s when the length prefix is %s %s: a body of another length, as a newer schema version writes it, is refused instead of decoded up to the first unknown index", Canon(ret.Results[0]), b.Op, Canon(k))
 	return true
 }
-
 
 // minWire: the least number of bytes a value of the (generated or basic) Go
 // type occupies on the wire, per the format: fixed widths for scalars, 4 for
